@@ -893,7 +893,9 @@ class Server:
         else:
             logger.debug("%s %s", cmd, rest)
 
-        return cmd.lower(), rest
+        # (str.lower maps some non-ascii letters to ascii ones - a verb spelled
+        # with the kelvin sign is not that verb)
+        return cmd.lower() if cmd.isascii() else cmd, rest
 
     async def response_writer(self, stream, response_queue):
         """
